@@ -1,4 +1,7 @@
 import GA.Lemmas.Func
+import GA.Model.Heap
+import GA.Bridge.HeapGen
+import GA.Bridge.Heap
 /-!
 # C08 — generate/map/zip/fold/clone/default apply the function once per index, in order
 
@@ -26,6 +29,23 @@ theorem generate_spec (g : Nat → Id) (n : Nat) :
     simp only [] at h1 h2
     subst h1
     simp only [List.nil_append]
+    exact ⟨by rw [List.range_eq_range'], by rw [h2, List.range_eq_range']⟩
+
+/-- **boxed generate** (and `default_boxed`): the same calls in the same order, whatever the element
+    size (zero included) and length (zero included) — the fill loop always runs over all `N` slots -/
+theorem boxed_generate_spec (esz ealign : Nat) (g : Nat → Id) (n : Nat) :
+    (Heap.boxedGenerate esz ealign n (fun i => some (g i)) true).res = .ok ((List.range n).map g) ∧
+    rets (Heap.boxedGenerate esz ealign n (fun i => some (g i)) true).etrace = (List.range n).map (fun i => (i, g i)) := by
+  obtain ⟨h1, h2, _⟩ := fill_gen g n 0 []
+  unfold Heap.boxedGenerate
+  simp only [Bridge.Heap.boxedWriteBeforeCount_eq, Bool.not_true, Bool.and_false, Bool.false_eq_true, if_false]
+  revert h1 h2
+  cases fillLoop true true (genSrc fun i => some (g i)) n 0 [] with
+  | mk tr r =>
+    intro h1 h2
+    simp only [] at h1 h2
+    subst h1
+    simp only [List.nil_append, rets_append, rets_map_drop, List.append_nil]
     exact ⟨by rw [List.range_eq_range'], by rw [h2, List.range_eq_range']⟩
 
 theorem default_spec (g : Nat → Id) (n : Nat) :
@@ -131,6 +151,7 @@ example : (generate (fun i => some (7 * i)) 0).2 = .ok [] := by decide
 end GA.Props.C08
 
 #print axioms GA.Props.C08.generate_spec
+#print axioms GA.Props.C08.boxed_generate_spec
 #print axioms GA.Props.C08.map_spec
 #print axioms GA.Props.C08.clone_spec
 #print axioms GA.Props.C08.zip_spec
